@@ -424,7 +424,9 @@ _verdict(worst > 1e-4 or not first_ok, interior_sample_deviation=worst, first_sa
 
 
 def _replay_fixed_grid():
-    return '''
+    """Compiled build: fixed-step RK on non-uniform ascending and descending grids, through the generic kernel and through the
+    Hamiltonian fast-path kernel (polynomial Hamiltonian system passed directly): every sample is the flow at its own grid time."""
+    return D.HAM_PRELUDE + '''
 from hiten.algorithms.integrators.rk import RungeKutta
 from hiten.algorithms.dynamics.rhs import create_rhs_system
 import numba
@@ -437,8 +439,18 @@ for grid in (np.array([0.0, 0.02, 0.1, 0.4, 0.45, 1.0]), np.array([1.0, 0.45, 0.
     sol = RungeKutta(order=8).integrate(sysm, np.array([1.0, 0.0]), grid)
     t = grid - grid[0]
     err = float(np.max(np.abs(sol.states[:, 0] - np.cos(t))))
-    if err > 1e-6 or not np.allclose(sol.states[0], [1.0, 0.0]) or not np.array_equal(sol.times, grid): bad.append((grid.tolist(), err))
-_verdict(bool(bad), problems=bad)
+    if err > 1e-6 or not np.allclose(sol.states[0], [1.0, 0.0]) or not np.array_equal(sol.times, grid): bad.append(("generic", grid.tolist(), err))
+hs = make_hamsys(0.7, mixed=0.4)
+fine = np.linspace(0.0, 1.0, 2001); ref = RungeKutta(order=8).integrate(hs, Y0.copy(), fine)
+refb = RungeKutta(order=8).integrate(hs, Y0.copy(), -fine)
+for order in (4, 6, 8):
+    for grid, r in ((np.array([0.0, 0.0125, 0.05, 0.2, 0.225, 0.5, 0.51, 0.8, 1.0]), ref), (-np.array([0.0, 0.0125, 0.05, 0.2, 0.225, 0.5, 0.51, 0.8, 1.0]), refb)):
+        dense = np.sort(np.unique(np.concatenate([grid, np.linspace(grid[0], grid[-1], 161)])))[:: (1 if grid[-1] > 0 else -1)]
+        sol = RungeKutta(order=order).integrate(hs, Y0.copy(), dense)
+        want = np.array([[np.interp(abs(tt), fine, np.asarray(r.states)[:, i]) for i in range(6)] for tt in dense])
+        err = float(np.max(np.abs(np.asarray(sol.states) - want)))
+        if err > (5e-6 if order == 4 else 1e-6) or not np.array_equal(np.asarray(sol.times), dense): bad.append(("hamiltonian fast path order %d" % order, "descending" if grid[-1] < 0 else "ascending", err))
+_verdict(bool(bad), problems=bad[:4])
 '''
 
 
